@@ -141,13 +141,18 @@ def classify_crash(stderr):
     return kind, frame, ffile
 
 
-def run_chunk(binary, profile, faults, base, count, outdir, deny, samples):
+def run_chunk(binary, profile, faults, base, count, outdir, deny, samples, mode='H', cpu=None):
     """Run seeds [base, base+count); restart after a death. Returns list of parsed events."""
     events = []
     cur = base
     end = base + count
     while cur < end:
-        cmd = [binary, 'run', '--profile', profile, '--seed-base', str(cur), '--count', str(end - cur), '--faults', str(faults), '--out', outdir, '--samples', str(samples)] + deny
+        if mode == 'T':
+            cmd = [binary, 'runT', '--seed-base', str(cur), '--count', str(end - cur), '--faults', str(faults), '--out', outdir, '--samples', str(samples)]
+            if cpu is not None:
+                cmd = ['taskset', '-c', str(cpu)] + cmd
+        else:
+            cmd = [binary, 'run', '--profile', profile, '--seed-base', str(cur), '--count', str(end - cur), '--faults', str(faults), '--out', outdir, '--samples', str(samples)] + deny
         p = subprocess.run(cmd, stdout=subprocess.PIPE, stderr=subprocess.PIPE, text=True, errors='replace')
         inflight = None
         term_op = ''
@@ -159,6 +164,12 @@ def run_chunk(binary, profile, faults, base, count, outdir, deny, samples):
                 f = line.split()
                 events.append(('R', int(f[1]), f[2], f[3], int(f[4], 16), int(f[5])))
                 done.add(int(f[1])); inflight = None
+            elif line.startswith('RT '):
+                f = line.split()
+                events.append(('RT', int(f[1]), f[2], f[3]) + tuple(int(x) for x in f[4:]))
+                done.add(int(f[1])); inflight = None
+            elif line.startswith('H '):
+                events.append(('H', cur, line[:3000]))
             elif line.startswith('V '):
                 head, _, text = line.partition(' | ')
                 f = head.split()
@@ -217,9 +228,9 @@ def replay(binary, path, timeout=60):
 
 # ---------- replay files as op trees ----------
 def parse_replay(path):
+    """head lines, op tree (with 'setup' / 'task N' marker nodes that are never removed), tail lines"""
     head, ops, tail = [], [], []
     section = 'head'
-    cur_task_marker = None
     with open(path) as f:
         for line in f:
             line = line.rstrip('\n')
@@ -229,11 +240,13 @@ def parse_replay(path):
                 if depth == 0:
                     ops.append(node)
                 else:
-                    parent = ops[-1]
+                    parent = [o for o in ops if not o.get('marker')][-1]
                     for _ in range(depth - 1):
                         parent = parent['kids'][-1]
                     parent['kids'].append(node)
                 section = 'ops'
+            elif line == 'setup' or line.startswith('task '):
+                ops.append({'line': line, 'kids': [], 'marker': True}); section = 'ops'
             elif section == 'ops' and (line.startswith('sched') or line == 'end'):
                 tail.append(line); section = 'tail'
             elif section == 'tail':
@@ -263,7 +276,16 @@ def write_replay(path, head, ops, tail, extra=None):
 def same_class(res, want):
     if want['kind'] == 'crash':
         return res['kind'] == 'crash' and res['crash'][0] == want['crash'][0] and res['crash'][1] == want['crash'][1]
-    return res['kind'] == 'violation' and res['oracle'] == want['oracle'] and want['prop'] in res['props'].split(',')
+    if res['kind'] != 'violation' or res['oracle'] != want['oracle'] or want['prop'] not in res['props'].split(','):
+        return False
+    if want.get('race_fn'):
+        return race_fn(res.get('text', '')) == want['race_fn']
+    return True
+
+
+def race_fn(text):
+    m = re.search(r'in ([^ ]+?)[(<]', text)
+    return m.group(1) if m else ''
 
 
 def minimise(binary, path, want, tmpdir, budget_runs=300, budget_s=60):
@@ -279,20 +301,26 @@ def minimise(binary, path, want, tmpdir, budget_runs=300, budget_s=60):
         write_replay(p, head, cand_ops, tail)
         return same_class(replay(binary, p, 30), want)
 
-    # ddmin over top-level operations
+    # ddmin over top-level operations (marker lines stay)
+    def without(idx_set):
+        return [o for k, o in enumerate(ops) if k not in idx_set]
     n = 2
-    while len(ops) >= 2:
-        size = max(1, len(ops) // n)
+    while True:
+        removable = [k for k, o in enumerate(ops) if not o.get('marker')]
+        if len(removable) < 2:
+            break
+        size = max(1, len(removable) // n)
         reduced = False
-        for i in range(0, len(ops), size):
-            cand = ops[:i] + ops[i + size:]
-            if cand and test(cand):
+        for i in range(0, len(removable), size):
+            drop = set(removable[i:i + size])
+            cand = without(drop)
+            if any(not o.get('marker') for o in cand) and test(cand):
                 ops = cand; n = max(n - 1, 2); reduced = True
                 break
         if not reduced:
             if size == 1:
                 break
-            n = min(len(ops), n * 2)
+            n = min(len(removable), n * 2)
         if runs[0] >= budget_runs or time.time() - t0 > budget_s:
             break
     # drop nested operations and faults
@@ -300,6 +328,8 @@ def minimise(binary, path, want, tmpdir, budget_runs=300, budget_s=60):
     while changed and runs[0] < budget_runs:
         changed = False
         for i, o in enumerate(ops):
+            if o.get('marker'):
+                continue
             if o['kids']:
                 for k in range(len(o['kids'])):
                     c = dict(o); c['kids'] = o['kids'][:k] + o['kids'][k + 1:]
@@ -374,6 +404,173 @@ def crash_props(kind, frame, ffile):
     return props
 
 
+def main_threads(prop, tier, seed, budget):
+    """C12: Mode T under ThreadSanitizer (simT) and, in the thorough tier, the same seeds under ASan (simTa)."""
+    t_start = time.time()
+    build()
+    t_built = time.time()
+    outdir = os.path.join(ROOT, 'replays', 'tmp', prop)
+    shutil.rmtree(outdir, ignore_errors=True)
+    os.makedirs(outdir, exist_ok=True)
+    binaries = [('simT', os.path.join(BUILD, 'simT'))]
+    if tier == 'thorough':
+        binaries.append(('simTa', os.path.join(BUILD, 'simTa')))
+    chunk = 100 if tier == 'quick' else 300
+    counter = [0]
+    deadline = time.time() + budget
+    base0 = (seed << 32)
+
+    def worker(w):
+        evs = []
+        while time.time() < deadline:
+            i = counter[0]; counter[0] += 1
+            bname, bpath = binaries[i % len(binaries)]
+            faults = 0 if (i // len(binaries)) % 4 == 3 else 1
+            evs.append(((bname, faults), run_chunk(bpath, 'threads', faults, base0 + (i // len(binaries)) * chunk, chunk, outdir, [], 1 if i < 3 else 0, mode='T', cpu=w % NCPU)))
+        return evs
+
+    with ThreadPoolExecutor(NCPU) as ex:
+        allevs = [e for part in ex.map(worker, range(NCPU)) for e in part]
+    t_sim = time.time()
+    runs = 0; fps = set(); nontrivial = 0; samples = []; viol = []; crashes = []; harness = []
+    agg = dict(ops=0, overlapping_pairs=0, decisions=0, switches=0, blocked_on_lock=0, stalls=0, lock_acquisitions=0, calls_accepted=0, calls_rejected=0,
+               faults_fired=0, lin_ok=0, lin_inconclusive=0, lin_nodes=0, lin_by_hint=0)
+    by_tasks = {}
+    per_bin = {}
+    for (bname, faults), evs in allevs:
+        for e in evs:
+            if e[0] == 'RT':
+                runs += 1; per_bin[bname] = per_bin.get(bname, 0) + 1
+                (_, sd, lh, fph, nt, nops, ov, dec, sw, bl, stl, la, acc, rej, ff, lv, ln, bh) = e
+                by_tasks[nt] = by_tasks.get(nt, 0) + 1
+                agg['ops'] += nops; agg['overlapping_pairs'] += ov; agg['decisions'] += dec; agg['switches'] += sw; agg['blocked_on_lock'] += bl
+                agg['stalls'] += stl; agg['lock_acquisitions'] += la; agg['calls_accepted'] += acc; agg['calls_rejected'] += rej; agg['faults_fired'] += ff
+                agg['lin_nodes'] += ln; agg['lin_by_hint'] += bh
+                if lv == 1: agg['lin_ok'] += 1
+                if lv == 2: agg['lin_inconclusive'] += 1
+                if ov > 0:
+                    nontrivial += 1; fps.add(lh)
+            elif e[0] == 'V':
+                viol.append(dict(seed=e[1], props=e[2], oracle=e[3], path=e[4], text=e[5], binary=bname, faults=faults))
+            elif e[0] == 'C':
+                crashes.append(dict(seed=e[1], crash=(e[2], e[3], e[4]), stderr=e[5], binary=bname, faults=faults))
+            elif e[0] == 'S':
+                if len(samples) < 2:
+                    samples.append(dict(seed=e[1], plan=e[2][:2500]))
+            elif e[0] == 'H':
+                harness.append(e[2])
+    if harness:
+        log('HARNESS: ' + harness[0][:3000]); sys.exit(2)
+    known = load_known()
+    out_lines = []; exit_code = 0; reported = 0; known_hits = {}
+    final_dir = os.path.join(ROOT, 'replays', prop)
+    seen = set(); cands = []
+    for v in viol:
+        key = (v['oracle'], race_fn(v['text']) if v['oracle'] == 'data_race' else '')
+        if key in seen:
+            continue
+        seen.add(key); cands.append(v)
+    harness_fault = None
+    bpaths = dict(binaries + [('simTa', os.path.join(BUILD, 'simTa'))])
+    for c in cands[:5]:
+        binary = bpaths[c['binary']]
+        want = dict(kind='violation', oracle=c['oracle'], prop=prop, race_fn=race_fn(c['text']) if c['oracle'] == 'data_race' else '')
+        r1 = replay(binary, c['path']); r2 = replay(binary, c['path'])
+        if c['oracle'] in ('deadlock', 'self_deadlock'):
+            want['race_fn'] = ''
+        if not same_class(r1, want) or not same_class(r2, want) or r1.get('hash') != r2.get('hash'):
+            harness_fault = 'Mode T candidate from seed %d (%s) did not reproduce identically: %s / %s' % (c['seed'], c['oracle'], str(r1)[:500], str(r2)[:500])
+            continue
+        # minimise with the PRNG-driven schedule (an explicit decision list does not survive removing operations)
+        tmpdir = tempfile.mkdtemp(prefix='simmin-', dir=os.path.join(ROOT, 'replays', 'tmp'))
+        noschd = os.path.join(tmpdir, 'nosched.replay')
+        head, ops, tail = parse_replay(c['path'])
+        tail_ns = ['sched' if l.startswith('sched') else l for l in tail]
+        write_replay(noschd, head, ops, tail_ns)
+        os.makedirs(final_dir, exist_ok=True)
+        fpath = os.path.join(final_dir, 'min-seedT-%d-%s.replay' % (c['seed'], re.sub(r'[^A-Za-z0-9_]+', '_', c['oracle'] + '_' + want['race_fn'])[:80]))
+        if same_class(replay(binary, noschd), want):
+            head, ops, tail, nruns = minimise(binary, noschd, want, tmpdir, 120 if tier == 'quick' else 300, 40 if tier == 'quick' else 90)
+            write_replay(fpath, head, ops, tail)
+            r3 = replay(binary, fpath)
+            if not same_class(r3, want):
+                shutil.copy(c['path'], fpath); r3 = r1
+            else:
+                write_replay(fpath, head, ops, tail, extra=['violation ' + r3.get('text', '')[:3000], 'minimised_from_seed %d in %d re-runs' % (c['seed'], nruns)])
+        else:
+            shutil.copy(c['path'], fpath); r3 = r1
+        shutil.rmtree(tmpdir, ignore_errors=True)
+        cls = dict(kind='violation', oracle=c['oracle'], crash=('', '', ''))
+        _, mops, _ = parse_replay(fpath)
+        hit = None
+        for k in known:
+            if matches_known(k, prop, cls, [o for o in mops if not o.get('marker')]):
+                hit = k; break
+        if hit:
+            known_hits[hit['id']] = hit
+        else:
+            out_lines.append('VIOLATION property=%s replay=%s' % (prop, fpath))
+            log('violation: ' + r3.get('text', '')[:1500])
+            exit_code = 1; reported += 1
+    for c in crashes[:3]:
+        # sanitizer death or terminate inside a Mode T run: the replay is the regenerated plan
+        binary = bpaths[c['binary']]
+        os.makedirs(final_dir, exist_ok=True)
+        fpath = os.path.join(final_dir, 'crash-seedT-%d.replay' % c['seed'])
+        pl = subprocess.run([binary, 'planT', '--seed', str(c['seed']), '--faults', str(c['faults'])], stdout=subprocess.PIPE, text=True).stdout
+        with open(fpath, 'w') as f:
+            f.write('# trompeloeil deterministic-simulation replay file v1\nbinary %s\nprofile threads\nproperty C12\noracle %s\nviolation %s in %s (%s)\n' % (c['binary'], c['crash'][0], c['crash'][0], c['crash'][1], c['crash'][2]) + pl)
+        r1 = replay(binary, fpath)
+        if r1['kind'] == 'crash' and r1['crash'][0] == c['crash'][0]:
+            out_lines.append('VIOLATION property=%s replay=%s' % (prop, fpath)); exit_code = 1; reported += 1
+            log('violation: %s in %s (%s)' % c['crash'])
+        else:
+            harness_fault = 'Mode T crash from seed %d did not reproduce: %s' % (c['seed'], str(r1)[:600])
+    for kid, k in sorted(known_hits.items()):
+        out_lines.append('KNOWN-FINDING: property=%s %s' % (prop, k['text']))
+    wall = time.time() - t_start
+    sim_s = max(t_sim - t_built, 1e-9)
+    evidence = {
+        'property_id': prop, 'tier': tier, 'seed': seed, 'level': 'exploration', 'wall_s': round(wall, 2), 'violations': reported,
+        'coverage': {
+            'evaluations': runs,
+            'distinct_nontrivial': len(fps),
+            'rule': 'seeded Mode T runs: 2..8 real threads, one runnable at a time, every scheduling decision (at lock acquire/release, clause points, operation boundaries) drawn from the run PRNG under one of four policies; '
+                    'a run is non-trivial when at least one pair of operations of different tasks overlapped in real time; distinct = distinct hashes of (schedule trace, recorded history)',
+            'samples': samples or [{'note': 'no sample captured'}],
+            'nontrivial_runs': nontrivial,
+            'runs_by_binary': per_bin,
+            'runs_by_task_count': {str(k): v for k, v in sorted(by_tasks.items())},
+            'simulated_time': {'unit': 'scheduler decisions (there is no clock to simulate)', 'decisions': agg['decisions'], 'context_switches': agg['switches']},
+            'runs_per_hour': int(runs / sim_s * 3600), 'seeds_per_hour': int(runs / sim_s * 3600),
+            'operations_executed': agg['ops'], 'overlapping_operation_pairs': agg['overlapping_pairs'],
+            'fault_kinds_fired': {'preempt(decisions)': agg['decisions'], 'blocked_on_lock': agg['blocked_on_lock'], 'stall_rounds': agg['stalls'], 'clause_throw_or_stall': agg['faults_fired'], 'fatal_unwind': agg['calls_rejected']},
+            'lock_acquisitions_intercepted': agg['lock_acquisitions'],
+            'calls_accepted': agg['calls_accepted'], 'calls_rejected': agg['calls_rejected'],
+            'linearizability': {'histories_ok': agg['lin_ok'], 'inconclusive': agg['lin_inconclusive'], 'decided_in_critical_section_order': agg['lin_by_hint'], 'model_steps': agg['lin_nodes']},
+            'race_detector': 'ThreadSanitizer (clang 14) with the scheduler hand-off invisible to it; a report counts only with a frame in %s/include' % REPO,
+            'sanitizer_or_crash_candidates': len(crashes),
+            'known_findings_reconfirmed': sorted(known_hits.keys()),
+            'components': {'real': ['the headers under %s/include/trompeloeil' % REPO, 'the default get_lock() and its std::recursive_mutex (pthread_mutex_lock/unlock intercepted at link time)', 'real std::thread tasks'],
+                           'stand_in_user_side': ['mock classes', 'recording reporter', 'clause bodies'], 'simulated': ['the OS scheduler (replaced by sim/sched.cpp)']},
+            'binary': 'simT: clang++ -std=c++14 -O1 -fsanitize=thread (scheduler TU uninstrumented)' + ('; simTa: ASan+UBSan build of the same runner' if tier == 'thorough' else ''),
+            'include_hash': include_hash(), 'build_s': round(t_built - t_start, 2),
+        },
+        'assumptions': ['yield points at synchronisation operations suffice when no data race is reported (DESIGN.md 3.4)',
+                        'the reference model and the sub-step decomposition of expectation creation / mock destruction (DESIGN.md 3.6)',
+                        'sampling, not proof'],
+    }
+    os.makedirs(os.path.join(ROOT, 'evidence'), exist_ok=True)
+    with open(os.path.join(ROOT, 'evidence', prop + '.json'), 'w') as f:
+        json.dump(evidence, f, indent=1)
+    for l in out_lines:
+        print(l)
+    if harness_fault and exit_code == 0:
+        log('HARNESS: ' + harness_fault[:3000]); sys.exit(2)
+    print('%s %s: %d runs, %d with overlapping operations (%d distinct), %d violations, %d known findings, %.1fs' % (prop, tier, runs, nontrivial, len(fps), reported, len(known_hits), wall))
+    sys.exit(exit_code)
+
+
 def main():
     ap = argparse.ArgumentParser()
     ap.add_argument('--property', required=True)
@@ -383,6 +580,9 @@ def main():
     prop = args.property
     tier = args.tier if args.tier in ('quick', 'thorough') else 'quick'
     seed = int(os.environ.get('VERIF_SEED', '1'))
+    if prop == 'C12':
+        main_threads(prop, tier, seed, args.budget if args.budget is not None else BUDGET_S[tier])
+        return
     t_start = time.time()
     build()
     t_built = time.time()
